@@ -229,7 +229,7 @@ pub fn shard_c15(tier: &str, seed: u64, shard: u32, programs: u32, exclude: &BTr
         }
         *stats.entry("damage_programs".into()).or_insert(0) += 1;
         // offsets: everything if small, else a stratified sample; plus a few in the zero padding
-        let limit = if thorough { 6000 } else { 1200 };
+        let limit = if thorough { 6000 } else { 500 };
         let mut offs: Vec<u64> = if data_end <= limit { (0..data_end).collect() } else { (0..limit).map(|_| next() % data_end).collect() };
         if data_end <= limit {
             *stats.entry("damage_programs_all_offsets".into()).or_insert(0) += 1;
@@ -253,7 +253,8 @@ pub fn shard_c15(tier: &str, seed: u64, shard: u32, programs: u32, exclude: &BTr
             // other small value (turns one marker kind into another)
             let orig = wr.img[wr.jidx].data.get(off as usize).copied().unwrap_or(0);
             let mut ms: Vec<u8> = masks.clone();
-            if orig <= 4 {
+            // (quick tier: for a third of the small bytes; zero bytes of lengths and seqnos are frequent)
+            if orig <= 4 && (thorough || next() % 3 == 0) {
                 for nv in 0u8..=4 {
                     if nv != orig && !ms.contains(&(orig ^ nv)) {
                         ms.push(orig ^ nv);
